@@ -1266,8 +1266,17 @@ func (bg *BondgoCheck) Visit(n ast.Node) ast.Visitor {
 
 			// fmt.Println(len(bg.Program))
 
+			// The arguments are handled in declaration order on both sides: ranging over the
+			// vars / newvars maps made the register assignment and the send and receive order
+			// depend on the map iteration order
+			argorder := make([]string, 0, len(functcell.Inputs))
+			for _, arg := range functcell.Inputs {
+				argorder = append(argorder, arg.Argname)
+			}
+
 			needchan := false
-			for varname, cell := range vars {
+			for _, varname := range argorder {
+				cell := vars[varname]
 				if gent, _ := Type_from_string(bg.Basic_type); Same_Type(cell.Vtype, gent) {
 					needchan = true
 					bggoroutine.Reqs <- VarReq{REQ_NEW, bggoroutine.CurrentRoutine, cell}
@@ -1397,7 +1406,8 @@ func (bg *BondgoCheck) Visit(n ast.Node) ast.Visitor {
 						// Send the passed by value data to the channel
 						channame := procbuilder.Get_channel_name(cell.Id)
 
-						for _, cell := range vars {
+						for _, varname := range argorder {
+							cell := vars[varname]
 							gent1, _ := Type_from_string(bg.Basic_type)
 							gent2, _ := Type_from_string("bool")
 							if Same_Type(cell.Vtype, gent1) || Same_Type(cell.Vtype, gent2) {
@@ -1442,7 +1452,8 @@ func (bg *BondgoCheck) Visit(n ast.Node) ast.Visitor {
 						// Get the data passed by value from the channel on the other side
 						ochanname := procbuilder.Get_channel_name(ocell.Id)
 
-						for _, cell := range newvars {
+						for _, varname := range argorder {
+							cell := newvars[varname]
 							gent1, _ := Type_from_string(bg.Basic_type)
 							gent2, _ := Type_from_string("bool")
 							if Same_Type(cell.Vtype, gent1) || Same_Type(cell.Vtype, gent2) {
